@@ -21,6 +21,8 @@ import Rdm.Lemmas.HeurMajority
 import Rdm.Lemmas.HeurH11
 import Mathlib.Tactic.Linarith
 import Mathlib.Tactic.NormNum
+import Rdm.Lemmas.E2EMethods
+import Rdm.Lemmas.E2EMethodsExamples
 set_option linter.unusedSectionVars false
 set_option linter.unusedSimpArgs false
 namespace Rdm.Props.C11
@@ -399,6 +401,136 @@ example : heurH11_wellConditioned heurH11_gapWc [heurH11_gapA, heurH11_gapB] = f
     (match majorityTournament .allow heurH11_gapWc heurH11_gapA [heurH11_gapB] [] with
      | .ok out => Spec.C11.check heurH11_gapWc [heurH11_gapA, heurH11_gapB] "allow" out
      | .error _ => true) = false := by decide +kernel
+
+/-! ## end to end: whole requests (`decideWith` / `Rdm.decide`, Model/Decide.lean)
+
+  Whatever biases ran before — every request, every bias list, every stream function, no bounds —, the answer
+  of the majority heuristic is `Majority.Evaluate` on the state that reached it (`resp.final`), read on the
+  stream `g seed` of the REQUEST's `randomSeed`, under the REQUEST's current choice, ordering flag and draw
+  policy.  `e2emMajEntries resp.result` reads the response back as the list `Evaluate` returned (what
+  `Spec.C11.check` is evaluated on).  Helper lemmas: Rdm/Lemmas/E2EMethods*.lean. -/
+
+/-- **the configuration in force**: no bias exchanges the method nor touches `currentChoice`, `randomSeed`,
+    `randomAlternativesOrdering` or `drawResolution` — the request's parsed parameters are majority parameters
+    with these four iff the parameters that reach `Evaluate` are (the weights are what the biases left) -/
+theorem decideWith_majority_parameters (exp : α → α) (aspOrder : List (WCrit α) → List (WCrit α))
+    (req : Request α) (g : Int → Draws α) (resp : Response α) (h : decideWith exp aspOrder req g = .ok resp)
+    (cur : String) (seed : Int) (rnd : Bool) (dr : String) :
+    (∃ w₀, req.mp = some (.majority w₀ cur seed rnd dr)) ↔ (∃ w, resp.final.mp = .majority w cur seed rnd dr) := by
+  constructor
+  · rintro ⟨w₀, hmp⟩
+    obtain ⟨w, _, hfin, _⟩ := e2em_decideWith_majority h hmp
+    exact ⟨w, hfin⟩
+  · rintro ⟨w, hfin⟩
+    exact (e2em_decideWith_majority_of_final h hfin).1
+
+/-- **the response IS the tournament on the final state** (any number type): for a request with majority
+    parameters, if `MakeDecision` answers then — with `w` the weights the biases left — the weights zip to the
+    criteria of the final state, the search order is `GetAlternativesSearchOrder` of the final state (current
+    choice of the request first, shuffled iff the request says so, on the stream of the request's seed), the
+    draw policy is the one the request names, and `result` is the tournament's ranking.  For distinct
+    `choseToMake` the search order has distinct ids and consists of `choseToMake` plus the current choice when
+    it is given and not among them.  (Every per-stage theorem above — `winner_is_first`,
+    `loser_entry_semantics`, `opponent_in_same_or_later_group`, `no_tie_groups_unless_draws_allowed`,
+    `links_name_ranked_alternatives`, … — applies to `e2emMajEntries resp.result` through this.) -/
+theorem decideWith_majority_is_tournament (exp : α → α) (aspOrder : List (WCrit α) → List (WCrit α))
+    (req : Request α) (g : Int → Draws α) (resp : Response α) (w₀ : KMap α) (cur : String) (seed : Int)
+    (rnd : Bool) (dr : String) (h : decideWith exp aspOrder req g = .ok resp)
+    (hmp : req.mp = some (.majority w₀ cur seed rnd dr)) :
+    ∃ w wc first rest ds' pol,
+      resp.final.mp = .majority w cur seed rnd dr ∧
+      zipWithWeights resp.final.crit w = .ok wc ∧
+      searchOrder resp.final cur rnd (g seed) = .ok ((first, rest), ds') ∧
+      findPolicy dr = .ok pol ∧
+      majorityTournament pol wc first rest ds' = .ok (e2emMajEntries resp.result) ∧
+      resp.result = (e2emMajEntries resp.result).map (Linked.mapEv .maj) ∧
+      (req.chosen.Nodup → ((first :: rest).map (·.id)).Nodup ∧
+        ((first :: rest).map (·.id)).Perm (e2eExpected req.chosen cur)) := by
+  obtain ⟨w, r, hfin, hr, hres⟩ := e2em_decideWith_majority h hmp
+  obtain ⟨wc, first, rest, ds', pol, hz, hso, hp, ht⟩ := e2em_majorityEvaluate_ok hfin hr
+  have hent : e2emMajEntries resp.result = r := by rw [hres, e2emMajEntries_map]
+  obtain ⟨hco, _⟩ := e2em_decideWith_co h
+  refine ⟨w, wc, first, rest, ds', pol, hfin, hz, hso, hp, by rw [hent]; exact ht, by rw [hent]; exact hres, ?_⟩
+  intro hnd
+  have hnd' : (resp.final.co.map (·.id)).Nodup := by rw [hco]; exact hnd
+  refine ⟨search_order_nodup resp.final cur rnd (g seed) ds' first rest hnd' hso, ?_⟩
+  have := e2e_searchOrder_ids hso
+  rwa [hco] at this
+
+/-- **`Spec.C11.check` accepts the response** (over `Rat`), the checker called as the driver op `check-c11`
+    calls it on the state that reached `Evaluate`: weighted criteria = `ZipWithWeights` of the final criteria
+    with the final weights, search order = `GetAlternativesSearchOrder` of the final state on the stream of the
+    seed, policy = the `drawResolution` string.  The hypotheses of `model_output_passes_spec` are carried
+    through unchanged, except that distinctness of the considered ids is now asked of `choseToMake`:
+    well-conditioned margins on the final state; no empty alternative id under `random`. -/
+theorem decideWith_majority_passes_spec (exp : Rat → Rat) (aspOrder : List (WCrit Rat) → List (WCrit Rat))
+    (req : Request Rat) (g : Int → Draws Rat) (resp : Response Rat)
+    (w : KMap Rat) (cur : String) (seed : Int) (rnd : Bool) (dr : String)
+    (h : decideWith exp aspOrder req g = .ok resp) (hfin : resp.final.mp = .majority w cur seed rnd dr)
+    (wc : List (WCrit Rat)) (hz : zipWithWeights resp.final.crit w = .ok wc)
+    (first : Alt Rat) (rest : List (Alt Rat)) (ds' : Draws Rat)
+    (hso : searchOrder resp.final cur rnd (g seed) = .ok ((first, rest), ds'))
+    (hnd : req.chosen.Nodup)
+    (hwc : heurH11_wellConditioned wc (first :: rest) = true)
+    (hrandom : dr = "random" → ∀ a ∈ first :: rest, a.id ≠ "") :
+    Spec.C11.check wc (first :: rest) dr (e2emMajEntries resp.result) = true := by
+  obtain ⟨_, r, hr, hres⟩ := e2em_decideWith_majority_of_final h hfin
+  have hent : e2emMajEntries resp.result = r := by rw [hres, e2emMajEntries_map]
+  obtain ⟨hco, _⟩ := e2em_decideWith_co h
+  rw [hent]
+  exact model_output_passes_spec resp.final (g seed) w cur seed rnd dr hfin r hr wc hz first rest ds' hso
+    (by rw [hco]; exact hnd) hwc hrandom
+
+/-- … in one statement from the request: majority parameters in the request, distinct `choseToMake`; the
+    weighted criteria and the search order exist (the model answered) and for them the checker accepts -/
+theorem decideWith_majority_passes_spec_from_request (exp : Rat → Rat)
+    (aspOrder : List (WCrit Rat) → List (WCrit Rat)) (req : Request Rat) (g : Int → Draws Rat)
+    (resp : Response Rat) (w₀ : KMap Rat) (cur : String) (seed : Int) (rnd : Bool) (dr : String)
+    (h : decideWith exp aspOrder req g = .ok resp) (hmp : req.mp = some (.majority w₀ cur seed rnd dr))
+    (hnd : req.chosen.Nodup) :
+    ∃ w wc first rest ds', resp.final.mp = .majority w cur seed rnd dr ∧
+      zipWithWeights resp.final.crit w = .ok wc ∧
+      searchOrder resp.final cur rnd (g seed) = .ok ((first, rest), ds') ∧
+      (heurH11_wellConditioned wc (first :: rest) = true →
+        (dr = "random" → ∀ a ∈ first :: rest, a.id ≠ "") →
+        Spec.C11.check wc (first :: rest) dr (e2emMajEntries resp.result) = true) := by
+  obtain ⟨w, wc, first, rest, ds', _, hfin, hz, hso, _⟩ :=
+    decideWith_majority_is_tournament exp aspOrder req g resp w₀ cur seed rnd dr h hmp
+  exact ⟨w, wc, first, rest, ds', hfin, hz, hso, fun hwc hrandom =>
+    decideWith_majority_passes_spec exp aspOrder req g resp w cur seed rnd dr h hfin wc hz first rest ds' hso hnd
+      hwc hrandom⟩
+
+/-- **C11 for `Rdm.decide`** (`MakeDecision` with the registered generators read from a seed table) -/
+theorem decide_majority_passes_spec (exp : Rat → Rat) (req : Request Rat) (seeds : Seeds Rat)
+    (resp : Response Rat) (w : KMap Rat) (cur : String) (seed : Int) (rnd : Bool) (dr : String)
+    (h : Rdm.decide exp req seeds = .ok resp) (hfin : resp.final.mp = .majority w cur seed rnd dr)
+    (wc : List (WCrit Rat)) (hz : zipWithWeights resp.final.crit w = .ok wc)
+    (first : Alt Rat) (rest : List (Alt Rat)) (ds' : Draws Rat)
+    (hso : searchOrder resp.final cur rnd (genOf seeds seed) = .ok ((first, rest), ds'))
+    (hnd : req.chosen.Nodup)
+    (hwc : heurH11_wellConditioned wc (first :: rest) = true)
+    (hrandom : dr = "random" → ∀ a ∈ first :: rest, a.id ≠ "") :
+    Spec.C11.check wc (first :: rest) dr (e2emMajEntries resp.result) = true :=
+  decideWith_majority_passes_spec exp _ req _ resp w cur seed rnd dr h hfin wc hz first rest ds' hso hnd hwc hrandom
+
+/-- the hypotheses are satisfiable: a majority request (current choice `"d"` known but not in `choseToMake`,
+    policy `current`, a fatigue fired before and rewrote every value) — the model answers, the margins of the
+    final state are well conditioned, and the checker accepts the response -/
+example : ∃ resp wc order, Rdm.decide id e2emExMajority e2eExSeeds = .ok resp ∧
+    order.map (·.id) = ["d", "c", "a", "b"] ∧
+    Spec.C11.check wc order "current" (e2emMajEntries resp.result) = true := by
+  have h := e2em_eq_ok_getD e2emNoResponse (x := Rdm.decide id e2emExMajority e2eExSeeds) (by decide +kernel)
+  generalize hresp : e2emGetD e2emNoResponse (Rdm.decide id e2emExMajority e2eExSeeds) = resp at h
+  obtain ⟨w, hfin⟩ := (decideWith_majority_parameters id _ _ _ resp h "d" 11 false "current").mp ⟨_, rfl⟩
+  have hw : w = e2emWeightsOf resp.final.mp := by rw [hfin]; rfl
+  subst hw
+  have hz := e2em_eq_ok_getD [] (x := zipWithWeights resp.final.crit (e2emWeightsOf resp.final.mp))
+    (by subst hresp; decide +kernel)
+  have hso := e2em_eq_ok_getD ((⟨"", []⟩, []), []) (x := searchOrder resp.final "d" false (genOf e2eExSeeds 11))
+    (by subst hresp; decide +kernel)
+  refine ⟨resp, _, _, h, ?_, decide_majority_passes_spec id _ _ resp _ "d" 11 false "current" h hfin _ hz _ _ _ hso
+    (by decide) (by subst hresp; decide +kernel) (fun hr => absurd hr (by decide))⟩
+  subst hresp; decide +kernel
 
 /-- the constants and names this property depends on were re-read from the working tree on this run
     (none fell back to its pinned value because its declaration could not be located) -/
